@@ -176,7 +176,7 @@ def one(args):
 
 
 def run(ctx):
-    n = 90 if ctx.quick else 2000
+    n = 90 if ctx.quick else 720
     with cf.ThreadPoolExecutor(max_workers=12) as ex:
         results = list(ex.map(one, [(ctx.seed, i) for i in range(n)] + [(ctx.seed, 1000000 + i) for i in range(n // 2)]))
     for text, meta, mode, rc, evs, findings, cases in results:
